@@ -97,11 +97,43 @@ def base_step(genotype: A[i1, 2], reads: A[f8, 3], llk: float, h: int, j: int, n
         lemma_llk_ext(reads, CN, genotype, UPD(old(genotype), h, j, choice), P, N, len(reads))
 
 
-@contract("mchap.assemble.mutation.compound_step", machine_ints=True, props=["C15"], opt_result={"1": "cache"})
+@spec_inline
+def VALIDG(G: A[int, 2], n_alleles: A[int, 1], P: int, N: int) -> bool:
+    """every cell holds an allele of its SNV"""
+    return forall(0, P, lambda x: forall(0, N, lambda y: 0 <= G[x, y] and G[x, y] < n_alleles[y]))
+
+
+@spec_inline
+def POSREADS(reads: A[float, 3], counts: A[int, 1], n_alleles: A[int, 1], P: int, N: int, n: int) -> bool:
+    """every read has positive probability under every genotype over the SNV alleles (true for
+    error-rate encoded reads): all likelihoods the sampler can meet are finite"""
+    return forall_arr2(lambda G2: implies(VALIDG(G2, n_alleles, P, N), not isninf(LLK(reads, counts, G2, P, N, n))), pattern=LLK(reads, counts, G2, P, N, n))
+
+
+@contract("mchap.assemble.mutation.compound_step", machine_ints=True, props=["C15", "C09", "C01"], opt_result={"1": "cache"})
 def compound_step(genotype: A[i1, 2], reads: A[f8, 3], llk: float, n_alleles: A[i8, 1], log_unique_haplotypes: float, inbreeding: float, temp: float, read_counts: Opt[A[i8, 1]], cache: Opt[ArrayMap]) -> Tup[float, Opt[ArrayMap]]:
     requires(len(n_alleles) == genotype.shape[1])
     requires(len(genotype) * genotype.shape[1] <= 2 ** 48)  # A7 for the (ploidy*n_base, 2) table
-    modifies(genotype)
+    requires(len(genotype) <= 127, reads.shape[1] == genotype.shape[1])
+    requires(forall(0, len(n_alleles), lambda y: 2 <= n_alleles[y] and n_alleles[y] <= reads.shape[2] and n_alleles[y] <= 128))
+    requires(0 <= temp, temp <= 1, 0 <= inbreeding, inbreeding < 1, finite(log_unique_haplotypes))
+    requires(implies(read_counts is not None, len(read_counts) == len(reads) and forall(0, len(reads), lambda r: read_counts[r] >= 1)))
+    requires(VALIDG(genotype, n_alleles, PP, NN))
+    requires(forall(lambda r, y, a: not isninf(reads[r, y, a]) and (isnan(reads[r, y, a]) or reads[r, y, a] >= 0)))
+    requires(POSREADS(reads, CN, n_alleles, PP, NN, len(reads)))
+    requires(llk == LLK(reads, CN, genotype, PP, NN, len(reads)))
+    requires(implies(cache is not None, AMOK(cache) and cache[2] == PP * NN and cache[0].shape[1] >= reads.shape[2]))
+    requires(implies(cache is not None, COH(cache, reads, CN, PP, NN, len(reads))))
+    modifies(genotype, cache)
+    # C09: the returned likelihood is the likelihood of the genotype left behind by the sweep
+    ensures(result[0] == LLK(reads, CN, genotype, PP, NN, len(reads)))
+    ensures(VALIDG(genotype, n_alleles, PP, NN))
+    ensures(implies(cache is not None, AMOK(result[1]) and result[1][2] == cache[2] and result[1][0].shape[1] == cache[0].shape[1]))
+    ensures(implies(cache is not None, COH(result[1], reads, CN, PP, NN, len(reads))))
+    with defs():
+        PP = len(genotype)
+        NN = genotype.shape[1]
+        CN = ones_if_none(read_counts)
     with loop(0):
         invariant(0 <= h, h <= ploidy, ploidy == len(genotype), n_base == genotype.shape[1], len(substeps) == ploidy * n_base)
         invariant(forall(0, h * n_base, lambda s: substeps[s, 0] == s // n_base and substeps[s, 1] == s % n_base))
@@ -116,6 +148,9 @@ def compound_step(genotype: A[i1, 2], reads: A[f8, 3], llk: float, n_alleles: A[
         # after the shuffle row i holds the pair number sigma(i), sigma a bijection of [0, P*N)
         invariant(forall(0, ploidy * n_base, lambda s: substeps[s, 0] == shuffle0(s) // n_base and substeps[s, 1] == shuffle0(s) % n_base))
         invariant(forall(0, ploidy * n_base, lambda s: 0 <= shuffle0(s) and shuffle0(s) < ploidy * n_base))
+        invariant(llk == LLK(reads, CN, genotype, PP, NN, len(reads)), VALIDG(genotype, n_alleles, PP, NN))
+        invariant(implies(cache is not None, AMOK(cache) and cache[2] == PP * NN and cache[0].shape[1] >= reads.shape[2]))
+        invariant(implies(cache is not None, COH(cache, reads, CN, PP, NN, len(reads))))
         with head():
             lemma_divmod_range(shuffle0(i), n_base, ploidy)
     with after_stmt("h, j = substeps[i]"):
@@ -123,3 +158,7 @@ def compound_step(genotype: A[i1, 2], reads: A[f8, 3], llk: float, n_alleles: A[
         # bijection of [0, P*N) and s -> (s div N, s mod N) a bijection onto [0,P) x [0,N), every pair once
         assert_(h == shuffle0(i) // n_base and j == shuffle0(i) % n_base)
         assert_(0 <= h and h < ploidy and 0 <= j and j < n_base)
+        with forall_intro(a, 0, n_alleles[j], not isninf(LLKU(reads, CN, genotype, h, j, a, PP, NN, len(reads)))):
+            unfold(LLKU(reads, CN, genotype, h, j, a, PP, NN, len(reads)))
+            assert_(VALIDG(UPD(genotype, h, j, a), n_alleles, PP, NN))
+            instantiate(POSREADS(reads, CN, n_alleles, PP, NN, len(reads)), UPD(genotype, h, j, a))
